@@ -6,7 +6,7 @@
 
 struct ref_parser g_ref;
 unsigned g_w, g_live0, g_steps, g_did_align;
-int g_ghost_on;
+int g_ghost_on; unsigned g_scan_again;
 uint64_t g_buff0;
 size_t g_nwords;      /* ghost: number of 32-bit words between bs->data and bs->limit at entry */
 
